@@ -19,7 +19,7 @@ ID = "C02"
 LEVEL = "exploration"
 COMPUTERS = ("superadditive", "superadditive_cached")
 RULE = ("Hypothesis: superadditive game (surplus construction, int/dyadic/float) x knowledge set K >= minimal "
-        "information (density drawn first) x both computers, fresh objects. Oracles: exact partition/superset closed "
+        "information (density drawn first) x both computers; the object reaches K by bulk reset, by single reveals with recomputes, or by a bulk set_values after a first compute (the bounds must not depend on the way). Oracles: exact partition/superset closed "
         "form of the statement in independent code; LP extremes over all superadditive completions for n<=5 (optimal "
         "vertex validated); lower-bound vector is itself a superadditive completion. Non-trivial: some unknown "
         "coalition has a non-degenerate interval AND some known non-minimal coalition strictly tightens a bound "
@@ -41,13 +41,38 @@ def cases(draw, max_n: int, lp: bool):
     game = draw(superadditive_games(3, max_n, explicit_up_to=5))
     n = game["n"]
     k = draw(knowledge_sets(n)) if n <= 6 else seeded_knowledge(n, draw(st.integers(0, 2**31)))
-    case = {"game": game, "K": k, "lp": []}
+    case = {"game": game, "K": k, "lp": [], "assembly": draw(st.sampled_from(["reset", "reset", "reveal-each", "bulk-after-compute", "reveal-then-bulk"]))}
     if lp:
         unknown = [s for s in range(1 << n) if s not in set(k)]
         if unknown:
             idx = draw(st.lists(st.integers(0, len(unknown) - 1), min_size=1, max_size=4, unique=True))
             case["lp"] = [unknown[i] for i in idx]
     return case
+
+
+def _assemble(repo, g, v, K, n, how: str) -> None:
+    """Bring the object to knowledge K in different legal ways; the bounds must not depend on the way."""
+    import numpy as np
+    mins = sorted(minimal_masks(n))
+    extra = sorted(set(K) - set(mins))
+    if how == "reset" or not extra:
+        repo.set_knowledge(g, v, K)
+        return
+    repo.set_knowledge(g, v, mins)
+    g.compute_bounds()
+    if how == "reveal-each":
+        for m in extra:
+            g.reveal_value(v[m], repo.coal(m))
+            g.compute_bounds()
+    elif how == "bulk-after-compute":
+        g.set_values(np.array([v[m] for m in extra], dtype=float), repo.coals(extra))
+    else:
+        half = extra[: len(extra) // 2]
+        for m in half:
+            g.reveal_value(v[m], repo.coal(m))
+        g.compute_bounds()
+        rest = extra[len(extra) // 2:]
+        g.set_values(np.array([v[m] for m in rest], dtype=float), repo.coals(rest))
 
 
 @guarded
@@ -64,7 +89,7 @@ def check_case(case: dict) -> Result:
     tables = {}
     for name in case.get("computers", COMPUTERS):
         g = repo.new_game(n, name)
-        repo.set_knowledge(g, v, K)
+        _assemble(repo, g, v, K, n, case.get("assembly", "reset"))
         g.compute_bounds()
         known, lower, upper = repo.table(g)
         tables[name] = (lower, upper)
@@ -103,7 +128,7 @@ def check_case(case: dict) -> Result:
     nondeg = any(ref_up[s] > ref_lo[s] for s in unknown)
     tightens = any(ref_lo[s] > min_lo[s] or ref_up[s] < min_up[s] for s in unknown)
     res.nontrivial = bool(nondeg and tightens)
-    res.label(f"n={n}", f"cls={cls}")
+    res.label(f"n={n}", f"cls={cls}", "assembly=" + case.get("assembly", "reset"))
     if nondeg:
         res.label("nondegenerate-interval")
     if tightens:
